@@ -387,6 +387,7 @@ func init() {
 		Rule: "every loop-bearing program of total size <=3 statements (nesting <=3) over {p(x), x = x + len(\"a\") (v2: x = id(x) + one()), add_key(k, len(\"abc\") + x), a raising statement, break, continue; if conditions contain a call} x if/else/elif x the 12 three-clause for shapes (post clause absent, an assignment, a probe call) x for-in over list, string and map, " +
 			"plus the same loops inside a script reached through use(), plus hand-written nested empty infinite loops and wait loops whose bodies hold compound statements only (also two use() levels deep), on both interpreters; " +
 			"fault = the poll index k at which the exit signal first reports true, ALL k = 1..min(polls of the uninterrupted run, horizon 40 quick / 200 thorough); " +
+			"parked neighbour (instrumented build: every wait for a lock is reported by the sync shim): for the programs of size <=2 (thorough 3; on v1 placed in a used script) and the hand-written extremes, run A of the loaded script is suspended inside its poll j (its own signal has not fired) and run B of the SAME loaded script runs with its signal true from poll k on, every j, k = 1..min(polls, 10 quick / 14 thorough) and k = never; control passes by channel hand-off only, so every execution is deterministic; B never waits for a lock, B = the run alone at k, then A = the prefix-at-j run; " +
 			"oracle: returns nil, final point = point at poll k of the uninterrupted run, probe trace = its prefix at poll k; non-trivial = distinct (interpreter, poll count, trace) of the uninterrupted runs",
 		Assumptions: []string{"a run that has not returned 20 s after being told to stop is re-run once and then reported as ignoring its signal (the only wall-clock decision)"},
 		Run:            c14Run,
